@@ -56,7 +56,10 @@ type c17bSrv struct {
 	mu       sync.Mutex
 	udpClass string
 	tcpClass string
-	udp      *net.UDPConn
+	// oneShot: a stream connection is closed by the upstream after every reply
+	// (an idle timeout of zero), so that a pooled connection is always dead
+	oneShot bool
+	udp     *net.UDPConn
 	tcp      net.Listener
 }
 
@@ -135,6 +138,12 @@ func c17bStart(t *testing.T, withTCP bool) *c17bSrv {
 							return // "none" over TCP: the connection is closed without an answer
 						}
 						_, _ = c.Write(append(binary.BigEndian.AppendUint16(nil, uint16(len(r))), r...))
+						s.mu.Lock()
+						one := s.oneShot
+						s.mu.Unlock()
+						if one {
+							return
+						}
 					}
 				}()
 			}
@@ -205,4 +214,36 @@ func TestVerifC17Exchange(t *testing.T) {
 			}
 		}
 	}
+	// one client instance, several queries in a row: its pooled stream connection is alive (the
+	// upstream keeps it open) or dead (the upstream closes after every reply) when the next query comes
+	for _, one := range []bool{false, true} {
+		for _, v := range []struct {
+			nw Network
+			uc string
+		}{{NetworkTCP, "valid"}, {NetworkAny, "validtc"}} {
+			both.mu.Lock()
+			both.udpClass, both.tcpClass, both.oneShot = v.uc, "valid", one
+			both.mu.Unlock()
+			u := NewUpstreamPlain(&UpstreamPlainConfig{Network: v.nw, Address: netip.MustParseAddrPort(both.udp.LocalAddr().String()), Timeout: 300 * time.Millisecond})
+			for k := 0; k < 6; k++ {
+				id++
+				req := new(dns.Msg).SetQuestion(fmt.Sprintf("reuse%d.c17.example.", k), dns.TypeA)
+				req.Id = id
+				ctx, cancel := context.WithTimeout(context.Background(), 400*time.Millisecond)
+				r, got, err := u.Exchange(ctx, req)
+				cancel()
+				ev := map[string]any{"ev": "Exchange", "net": string(v.nw), "udp": v.uc, "tcp": "valid", "err": err != nil, "via": string(got),
+					"got": c17bClassOf(req, r), "beh": 0, "reuse": k, "oneshot": one}
+				if err != nil {
+					ev["got"] = "error"
+				}
+				out.Emit(ev)
+				time.Sleep(15 * time.Millisecond) // lets the upstream's FIN arrive
+			}
+			_ = u.Close()
+		}
+	}
+	both.mu.Lock()
+	both.oneShot = false
+	both.mu.Unlock()
 }
